@@ -159,6 +159,8 @@ func Canon(x any) any {
 		return v
 	case LKey:
 		return v.ID
+	case UKey:
+		return v.ID
 	}
 	rv := reflect.ValueOf(x)
 	if rv.Kind() == reflect.Ptr && rv.IsNil() {
@@ -176,12 +178,15 @@ var (
 	enumerationT = reflect.TypeOf((*hmap.Enumeration)(nil)).Elem()
 )
 
-func toArg(a any, t reflect.Type) reflect.Value {
+func toArg(a any, t reflect.Type, ukeys bool) reflect.Value {
 	if a == nil {
 		return reflect.Zero(t)
 	}
 	if t == linkedKeyT {
 		if id, ok := a.(int64); ok {
+			if ukeys {
+				return reflect.ValueOf(UKey{ID: id})
+			}
 			return reflect.ValueOf(LKey{id})
 		}
 	}
@@ -201,7 +206,7 @@ func (in *Inst) call(real string, args ...any) []reflect.Value {
 	var buf [2]reflect.Value
 	av := buf[:0]
 	for i, a := range args {
-		av = append(av, toArg(a, mt.In(i)))
+		av = append(av, toArg(a, mt.In(i), in.Cfg.UKeys))
 	}
 	return m.Call(av)
 }
